@@ -230,6 +230,43 @@ CLAIMED = {
         technique="TLA+ denotation Dsl + TLC executing the real emitted bytecode on the eBPF machine Ebpf.tla; "
                   "per-case verdicts",
         design_ref="5/C01"),
+
+    "C03": dict(
+        category="model_checking",
+        text="Dsl.tla defines the truth value of conditions (six comparison operators on exact values, truth and "
+             "bit tests, single- and multi-bit fields, ~ & | combinations), the property's precondition "
+             "(compared values fit the narrowest width involved, read conservatively) and Exec: the set of "
+             "marker bytes a program of nested / sequenced with / Else blocks must set. Programs are built with "
+             "the real classes: every ordered pair of 15 operand kinds under rotating (thorough: all) "
+             "operators, operands against constants on either side and a+1 expressions, bit tests and fields, "
+             "12 condition shapes x 5 block shapes from fixed seeds; TLC executes the emitted bytecode on the "
+             "eBPF machine from input vectors drawn around each program's constants (incl. equal operands and "
+             "positive-versus-minus-one), and the markers found set must equal Exec. 58% of judged programs "
+             "were observed on two or more different paths in the quick tier.",
+        note="Bounded depth and sampled inputs. A condition outside the precondition on the executed path makes the "
+             "case skipped. One recorded known finding (the sw register view compared without sign extension "
+             "against a 64-bit operand) is matched by a predicate the spec evaluates; a program that has it AND "
+             "another defect is attributed to it.",
+        technique="TLA+ denotation of conditions and blocks (Dsl.tla, Cond.tla) + TLC executing the real emitted "
+                  "bytecode on the eBPF machine; per-case verdicts",
+        design_ref="5/C03"),
+    "C07": dict(
+        category="model_checking",
+        text="Bytes.tla defines Unpack / Pack for B H I Q b h i q with native, <, >, ! byte orders (validated "
+             "against Python's struct on 496 vectors) and Patch; Packet.tla judges each run of a real XDP program: "
+             "a read stores Unpack of exactly the declared bytes, a write leaves Patch(pkt, p, Pack(v)) with "
+             "every other byte unchanged, in-place updates likewise, and the guarded body runs for every packet "
+             "longer than the guard and for none shorter than its accesses need, never faulting. Programs use "
+             "real PacketVar descriptors and pB/pH/pI/pQ accesses under minimumPacketSize and explicit "
+             "packetSize comparisons with Else; every packet length from 0 to guard+size+2 with fixed-seed "
+             "contents and boundary field values. Every program is also loaded into the kernel and a large "
+             "sample of runs is cross-checked (machine = kernel) when bpf() is available.",
+        note="Grid is sampled in the quick tier (about a third). Lengths between the guard and the access need are "
+             "left free, as the property text allows. '=' and '@' prefixes, register-valued offsets, bit-field "
+             "and multi-element formats in packets are not covered.",
+        technique="TLA+ specs Bytes + Packet over the eBPF machine; TLC executes the real emitted bytecode; kernel "
+                  "cross-check of programs and runs",
+        design_ref="5/C07"),
 }
 NOT_YET = "not yet built in this round (planned in DESIGN.md section 5)"
 NOT_APPLICABLE = {}
